@@ -91,6 +91,30 @@ theorem storeAt_found (root : Val) (p : Pos) (c : Val) (r : Res) (v t' : Val)
     rw [modRef_at root pp _ _ hpv]
     simp [hset]
 
+/-- `__setitem__` looks for another place only when `_find` reported a hidden list (fix C03-e) -/
+theorem hiddenPlace_notWrap (fuel : Nat) (root : Val) (r : Res) (h : isWrap r.parent = false) :
+    hiddenPlace fuel root r = .ok r := by
+  simp [hiddenPlace, h]
+
+theorem hiddenPlace_at (fuel : Nat) (root : Val) (r : Res) (q : Pos) (h : r.parent = .at q) :
+    hiddenPlace fuel root r = .ok r :=
+  hiddenPlace_notWrap fuel root r (by rw [h]; rfl)
+
+theorem hiddenPlace_mk_at (fuel : Nat) (root : Val) (q : Pos) (ni : Option Str) (v : Val) (f : Str) (nf : Option (List Str)) :
+    hiddenPlace fuel root { parent := .at q, nameIdx := ni, value := v, found := f, notFound := nf }
+      = .ok { parent := .at q, nameIdx := ni, value := v, found := f, notFound := nf } :=
+  hiddenPlace_at fuel root _ q rfl
+
+theorem delPlace_notWrap (fuel : Nat) (root : Val) (tok : Str) (r : Res) (h : isWrap r.parent = false) :
+    delPlace fuel root tok r = .ok (some r) := by
+  simp [delPlace, h]
+
+theorem delPlace_at (fuel : Nat) (root : Val) (tok : Str) (r : Res) (q : Pos) (h : r.parent = .at q) :
+    delPlace fuel root tok r = .ok (some r) :=
+  delPlace_notWrap fuel root tok r (by rw [h]; rfl)
+
+theorem isWrap_at (q : Pos) : isWrap (.at q) = false := rfl
+
 theorem hasPathChar_render (p : Pos) : hasPathChar (slash ++ renderPos p) = true := by
   simp [hasPathChar, slash]
 
@@ -106,8 +130,11 @@ theorem setItem_existing (cls : Cls) (kvs : List (Str × Val)) (p : Pos) (c v t'
   have hq : startsWith (slash ++ renderPos p) ['?'] = false := by simp [slash, startsWith]
   have hnf : r.notFound = Option.none := hfound.2.1
   have hst := storeAt_found (.dict cls kvs) p c r v t' hfound hp hset
+  have hhid : hiddenPlace fuel (.dict cls kvs) r = .ok r := by
+    obtain ⟨_, _, pp, _, _, _, _, hpar, _⟩ := hfound
+    exact hiddenPlace_at _ _ _ _ hpar
   unfold setItem
-  simp only [hq, Bool.false_and, Bool.false_eq_true, if_false, hasPathChar_render, if_true, htok, hr, hnf,
+  simp only [hq, Bool.false_and, Bool.false_eq_true, if_false, hasPathChar_render, if_true, htok, hr, hhid, hnf,
     List.isEmpty_nil, Bool.not_true, hst]
 
 end N0.XPath
